@@ -115,6 +115,30 @@ def run(chk):
     chk.sample({"mutant": muts[0][:300], "answer": {k: impl[0].get(k) for k in ("error", "nerrors", "iters")}})
     chk.traces += len(ops)
 
+    # ---------------- (1b) every operand position x every kind of value (ill-typed operands must be diagnosed)
+    VALUES = ["1", "0", "-1", "true", "false", "\"s\"", "\"\"", "x", "lbl", "f", "f(1)", "{}", "1 == 1", "1 ? 2 : 3", "0x10`8", "$",
+              "incbin", "undefined_name", "1 / 0", "!true", "-\"a\"", "le(0x1234)", "sizeof(1)", "strlen(1)", "\"a\" @ 1", "1[0:1]", "f(1, 2)", "asm { nop }"]
+    FRAMES = ["#if %s\n{\n#d8 1\n}\n", "#if false\n{\n}\n#elif %s\n{\n#d8 1\n}\n", "#assert %s\n", "#d8 %s\n", "#d %s\n", "#d16 1, %s\n",
+              "#res %s\n", "#align %s\n", "#addr %s\n", "#bits %s\n", "#labelalign %s\n", "y = %s\n#d8 y`8\n", "ld %s\n", "emit %s\n",
+              "#bankdef b { #addr %s, #size 16, #outp 0 }\n#d8 1\n", "#bankdef b { #addr 0, #size %s, #outp 0 }\n#d8 1\n",
+              "#bankdef b { #addr 0, #size 16, #outp %s }\n#d8 1\n", "#bankdef b { #bits %s, #addr 0, #size 16, #outp 0 }\n#d8 1\n",
+              "#fn g(a) => a + %s\n#d8 g(1)\n", "#d8 f(%s)\n", "#d8 (%s)[3:0]\n", "#d8 1 << %s\n", "#d8 (%s) ? 1 : 2\n", "#const(noemit) k = %s\n#d8 1\n",
+              "#include %s\n", "#d incbin(%s)\n", "#d incbin(\"main.asm\", %s)\n", "#once\n#d8 %s`8\n"]
+    HEADER = "#ruledef\n{\n    nop => 0x00\n    ld {v: u8} => 0x10 @ v\n    emit {v} => v`8\n}\n#fn f(a) => a + 1\nx = 5\nlbl:\n"
+    tprogs = [HEADER + fr % v for fr in FRAMES for v in VALUES]
+    tprogs += [HEADER + fr % v for fr in FRAMES for v in ["TRACE"]]        # set by a define below
+    tops = [fw.asm_op([("main.asm", t)], defs=[("TRACE", "i1")] if t.endswith("TRACE\n") or "TRACE" in t else None) for t in tprogs]
+    timpl = fw.run_oracle_resilient(tops, "c03t", timeout=3000)
+    for t, a in zip(tprogs, timpl):
+        chk.evaluations += 1
+        if a.get("not_run"):
+            continue
+        bad = invariant(a)
+        chk.count("typed_ok" if a.get("output") is not None else "typed_err")
+        if bad:
+            chk.violate(bad.split(":")[0], {"program": t}, "success without error, or failure with an error and no output", bad)
+    chk.traces += len(tops)
+
     # ---------------- (2) driver with defines, budgets, switches, faults
     prog = "val = 5\nother = 1\n#d8 val, other\n#assert val < 200\n"
     cmds = []
